@@ -470,6 +470,7 @@ func mkOps(custom, quick bool) []opDef {
 		{Kind: okEnter, Res: "r2", Batch: 1},
 		{Kind: okEnter, Res: "r1", Batch: 1, Args: 3},
 		{Kind: okEnter, Res: "r2", Batch: 3},
+		{Kind: okEnter, Res: "r2", Batch: 0}, // an empty batch: no tokens, but an entry in flight
 	}
 	if !quick {
 		ops = append(ops, opDef{Kind: okEnter, Res: "r1", Batch: 1}, opDef{Kind: okEnter, Res: "r1", Batch: 3, Args: 1})
